@@ -63,7 +63,7 @@ Proof. unfold no_panic, visible. intros H Hin. apply filter_In in Hin. tauto. Qe
 
 Lemma e_input_no_panic cfg g i : no_panic (snd (e_input cfg g i)).
 Proof.
-  destruct i as [d t|m|t|]; cbn [e_input].
+  destruct i as [d t|m|t| |w]; cbn [e_input].
   - unfold e_net.
     pose proof (sk_pump_Run (engine_ok cfg) (g_st g) (g_acc g ++ d)) as HR.
     destruct (pump (estep cfg) emu EMU_MAX (g_st g) (g_acc g ++ d)) as [[st' r] o]. cbn [snd].
@@ -73,6 +73,7 @@ Proof.
     destruct (e_version (g_st g)) as [[|]|]; try np;
     (destruct (match c_hb_timeout cfg with Some _ => _ | None => _ end); [np|];
      destruct (c_hb_ivl cfg); [|np]; destruct (_ && _); np).
+  - np.
   - np.
 Qed.
 
@@ -98,11 +99,12 @@ Theorem engine_closed_absorbing cfg g i :
   e_phase (g_st (fst (e_input cfg g i))) = PClosed /\
   (forall x, In x (snd (e_input cfg g i)) -> match x with OCork _ | OClose _ => True | _ => False end).
 Proof.
-  intros Hc. destruct i as [d t|m|t|]; cbn [e_input].
+  intros Hc. destruct i as [d t|m|t| |w]; cbn [e_input].
   - destruct (e_net_closed cfg g d t Hc) as [Ho Hp]. rewrite Ho. split; [exact Hp|]. intros x [].
   - unfold e_app. rewrite Hc. cbn. split; [exact Hc|]. intros x [].
   - unfold e_tick. rewrite Hc. cbn. split; [exact Hc|]. intros x [].
   - cbn. split; [reflexivity|]. intros x [<-|[<-|[]]]; exact I.
+  - cbn. split; [exact Hc|]. intros x [].
 Qed.
 
 (* ---------- bounded buffering ---------- *)
@@ -224,7 +226,7 @@ Definition g_inv (g : engine) : Prop := st_inv (g_st g).
 
 Lemma e_input_inv cfg g i : g_inv g -> g_inv (fst (e_input cfg g i)).
 Proof.
-  unfold g_inv. intros H. destruct i as [d t|m|t|]; cbn [e_input].
+  unfold g_inv. intros H. destruct i as [d t|m|t| |w]; cbn [e_input].
   - unfold e_net.
     pose proof (sk_pump_Run (engine_ok cfg) (g_st g) (g_acc g ++ d)) as HR.
     destruct (pump (estep cfg) emu EMU_MAX (g_st g) (g_acc g ++ d)) as [[st' r] o]. cbn [fst g_st].
@@ -235,6 +237,7 @@ Proof.
     (destruct (match c_hb_timeout cfg with Some _ => _ | None => _ end); [intros ?; discriminate|];
      destruct (c_hb_ivl cfg); [|exact H]; destruct (_ && _); exact H).
   - intros ?. discriminate.
+  - exact H.
 Qed.
 
 Theorem engine_buffer_bound cfg g d t :
